@@ -29,8 +29,8 @@ pub enum Hist {
     Churn,
     /// a connection whose handler panics (fault in interface code), then an ordinary one
     HandlerPanic,
-    /// the stop flag is set while a long streaming reply is in flight; further clients arrive
-    /// while it is still in flight, the last one well after any reading of "shortly"
+    /// the stop flag is set while a long streaming reply is in flight; one further client arrives
+    /// while it is still in flight, well after any reading of "shortly"
     LateClientsDuringStream,
 }
 
@@ -243,9 +243,10 @@ fn run_scn(s: &Scn) -> Result<Obs, String> {
                 sleep_until(t0, 300 + s.jitter);
                 set_flag(&server, &mut obs);
                 let flag_at = obs.flag_set_at.unwrap();
-                // clients at flag + 0.7 s / 1.9 s / 3.4 s, while the stream is still running; only
-                // the one beyond quantum + slack is judged
-                for (k, after) in [700u128, 1900, 3400].into_iter().enumerate() {
+                // ONE further client, at flag + 3.4 s (beyond quantum + slack), while the stream is
+                // still running (a server that lets "just one more" in must not get its chance
+                // used up by an earlier, unjudged client)
+                for (k, after) in [3400u128 + (s.jitter as u128 % 7) * 50].into_iter().enumerate() {
                     sleep_until(t0, (flag_at + after) as u64);
                     let mut o2 = Obs::default();
                     let started = t0.elapsed().as_millis();
